@@ -1,0 +1,44 @@
+//go:build verif
+
+// Package verifhook provides observation/scheduling points for the external
+// verification harness. With the `verif` build tag the harness can install a
+// handler; without the tag every call is a no-op that the compiler removes.
+package verifhook
+
+import "sync/atomic"
+
+// Enabled reports whether hooks are compiled in.
+const Enabled = true
+
+type handler struct {
+	at   func(point string, args ...any)
+	tune func(name string, def int64) int64
+}
+
+var current atomic.Pointer[handler]
+
+// Install sets the handler functions (either may be nil). Passing two nils
+// removes the handler.
+func Install(at func(point string, args ...any), tune func(name string, def int64) int64) {
+	if at == nil && tune == nil {
+		current.Store(nil)
+		return
+	}
+	current.Store(&handler{at: at, tune: tune})
+}
+
+// At marks a named point in the code. The installed handler may record the
+// call and may block the calling goroutine (a scheduler gate).
+func At(point string, args ...any) {
+	if h := current.Load(); h != nil && h.at != nil {
+		h.at(point, args...)
+	}
+}
+
+// Tune returns def unless a handler overrides the named constant.
+func Tune(name string, def int64) int64 {
+	if h := current.Load(); h != nil && h.tune != nil {
+		return h.tune(name, def)
+	}
+	return def
+}
